@@ -131,7 +131,7 @@ def judgeStream (s : Bytes) (impl : List String) : String :=
     | _ => "FAIL well-formed stream was not decoded"
   | .error e =>
     match e with
-    | .leftover | .overshoot =>
+    | .leftover | .overshoot | .nonCanonical =>
       -- not one of the malformation classes the property lists: only "no panic" is required
       "ok skip " ++ e.name
     | _ =>
